@@ -3,7 +3,7 @@
    decoders/encoders of sx, no logic that a property theorem speaks about. *)
 From Coq Require Import ZArith List Bool.
 From V Require Import Result Bytes TypeName Utf8 Float32 Codec AuxTable.
-From V Require World WorldRun Cfg CfgRun ByteStore ByteRun.
+From V Require World WorldRun Cfg CfgRun ByteStore ByteRun Proto ProtoRun.
 Import ListNotations.
 Open Scope Z_scope.
 
@@ -145,6 +145,8 @@ Definition run (req : sx) : sx :=
   (* 30: a history over one CFG *)
   | L [A 30; items] => CfgRun.run_cfg items
   (* 31: one byte interval's storage through a history *)
+  (* 40-42: protobuf writer / reader / round trip at message level *)
+  | L (A 40 :: _) | L (A 41 :: _) | L (A 42 :: _) => ProtoRun.run_proto req
   | L [A 31; size; init; contents; items] => ByteRun.run_bytes size init contents items
   | _ => L [A (-2)]
   end.
